@@ -24,10 +24,14 @@ class Node(object):
 
 
 class CFG(object):
-    def __init__(self, fn_node, raising=None):
+    def __init__(self, fn_node, raising=None, any_class=None):
         """raising: optional predicate(ast statement) -> True for statements that may raise even outside any try
-        (they get an exceptional edge to the exceptional exit)."""
+        (they get an exceptional edge to the exceptional exit).
+        any_class: optional predicate(ast statement) -> True for statements whose implicit exception may be of ANY class
+        (GeneratorExit / KeyboardInterrupt / SystemExit / CancelledError thrown in at a yield ...): such an exception is
+        stopped only by a bare `except:` / `except BaseException`, `except Exception` lets it pass (finally still runs)."""
         self.raising = raising
+        self.any_class = any_class
         self.fn = fn_node
         self.nodes = []
         self.succ = {}
@@ -69,7 +73,7 @@ class CFG(object):
             self._finally, self._handlers = saved_f, saved_h
         return dangling
 
-    def _exc_edges(self, node_id):
+    def _exc_edges(self, node_id, any_class=False):
         """Implicit exception from a node inside try bodies: to handlers, and outwards if not caught-all."""
         if not self._handlers and not self._finally:
             return
@@ -80,7 +84,7 @@ class CFG(object):
             for h in hids:
                 self._connect(d, h)
             depth = min(depth, fdepth)
-            if catches_all:
+            if catches_all and (not any_class or catches_all == 2):     # 2: the handler list covers BaseException
                 caught = True
                 break
         if not caught:
@@ -161,7 +165,7 @@ class CFG(object):
             return [(n.id, None)]
         n = self._simple(st, dangling, tag)
         if self._may_raise(st):
-            self._exc_edges(n.id)
+            self._exc_edges(n.id, self.any_class is not None and bool(self.any_class(st)))
         if self.raising is not None and self.raising(st) and not self._handlers and not self._finally:
             self._edge(n.id, self.raise_exit.id, 'exc')
         if self._has_yield(st):
@@ -203,8 +207,10 @@ class CFG(object):
             hn = self._new('handler', h, 'except')
             handler_nodes.append(hn)
             names = _handler_names(h)
-            if names is None or 'Exception' in names or 'BaseException' in names:
-                catches_all = True
+            if names is None or 'BaseException' in names:
+                catches_all = 2
+            elif 'Exception' in names:
+                catches_all = catches_all or True
         if handler_nodes:
             self._handlers.append(([h.id for h in handler_nodes], catches_all, len(self._finally)))
         body_out = self._seq(st.body, dangling, tag)
